@@ -461,6 +461,79 @@ func genPanicSites(dir string) error {
 	return os.WriteFile(filepath.Join(dir, "PanicSites.lean"), []byte(sb.String()), 0o644)
 }
 
+// genSrcReads: every place where the packages xz and lzma can touch a caller-supplied SOURCE: calls of a method Read /
+// ReadByte on a value whose static type is an interface (io.Reader, io.ByteReader, a chunk reader …), and calls of the
+// io / bufio / ioutil functions that read from one. Property C13 (fragmentation independence) rests on the fact that the
+// source is only reached through io.ReadFull, io.CopyN, io.LimitReader, io.TeeReader and the one-byte reads of
+// breader.ReadByte (Model/Src.lean); Props/C13.lean pins the list.
+func genSrcReads(dir string) error {
+	var rows []string
+	for _, rel := range []string{".", "lzma"} {
+		p, err := loadPkg(rel)
+		if err != nil {
+			return err
+		}
+		conf := types.Config{Importer: importer.ForCompiler(p.fset, "source", nil), Error: func(error) {}}
+		info := &types.Info{Types: map[ast.Expr]types.TypeAndValue{}, Uses: map[*ast.Ident]types.Object{}, Defs: map[*ast.Ident]types.Object{}, Selections: map[*ast.SelectorExpr]*types.Selection{}}
+		path := "github.com/ulikunitz/xz"
+		if rel != "." {
+			path += "/" + rel
+		}
+		conf.Check(path, p.fset, p.files, info)
+		for fi, f := range p.files {
+			for _, d := range f.Decls {
+				fd, ok := d.(*ast.FuncDecl)
+				if !ok || fd.Body == nil {
+					continue
+				}
+				fname := fd.Name.Name
+				if fd.Recv != nil && len(fd.Recv.List) > 0 {
+					fname = exprStr(fd.Recv.List[0].Type) + "." + fname
+				}
+				ast.Inspect(fd.Body, func(nd ast.Node) bool {
+					call, ok := nd.(*ast.CallExpr)
+					if !ok {
+						return true
+					}
+					sel, ok := call.Fun.(*ast.SelectorExpr)
+					if !ok {
+						return true
+					}
+					// package functions that read from an io.Reader
+					if id, ok := sel.X.(*ast.Ident); ok {
+						if pn, ok := info.Uses[id].(*types.PkgName); ok {
+							switch pn.Imported().Path() {
+							case "io", "bufio", "io/ioutil":
+								switch sel.Sel.Name {
+								case "ReadFull", "ReadAtLeast", "ReadAll", "Copy", "CopyN", "CopyBuffer", "LimitReader", "TeeReader", "NewReader", "NewReaderSize", "MultiReader", "NewSectionReader":
+									rows = append(rows, fmt.Sprintf("(%s, %s, %s)", leanStr(rel+"/"+p.names[fi]), leanStr(fname), leanStr(pn.Imported().Path()+"."+sel.Sel.Name)))
+								}
+							}
+							return true
+						}
+					}
+					if sel.Sel.Name != "Read" && sel.Sel.Name != "ReadByte" {
+						return true
+					}
+					tv, ok := info.Types[sel.X]
+					if !ok || tv.Type == nil {
+						return true
+					}
+					if _, isIface := tv.Type.Underlying().(*types.Interface); isIface {
+						rows = append(rows, fmt.Sprintf("(%s, %s, %s)", leanStr(rel+"/"+p.names[fi]), leanStr(fname), leanStr("("+tv.Type.String()+")."+sel.Sel.Name)))
+					}
+					return true
+				})
+			}
+		}
+	}
+	sort.Strings(rows)
+	var sb strings.Builder
+	sb.WriteString("/- GENERATED by harness `xzh gen` from /repo (T-facts: go/types). Do not edit. -/\nnamespace Gen\n\n")
+	fmt.Fprintf(&sb, "/-- (file, function, callee): calls of Read / ReadByte on interface-typed values and of the io / bufio functions that\n    read from an io.Reader, in packages xz and lzma -/\ndef srcReads : List (String × String × String) :=\n  [%s]\n\nend Gen\n", strings.Join(rows, ",\n   "))
+	return os.WriteFile(filepath.Join(dir, "SrcReads.lean"), []byte(sb.String()), 0o644)
+}
+
 func exprStr(e ast.Expr) string {
 	switch x := e.(type) {
 	case *ast.Ident:
